@@ -128,8 +128,8 @@ def build(u, twin=False, suffix=''):
     return meta
 
 
-def run_verus(path, rlimit=None, timeout=900, extra=None):
-    cmd = [VERUS, os.path.basename(path), '--output-json', '--time', '--multiple-errors', '20']
+def run_verus(path, rlimit=None, timeout=900, extra=None, multiple_errors=20):
+    cmd = [VERUS, os.path.basename(path), '--output-json', '--time', '--multiple-errors', str(multiple_errors)]
     if rlimit:
         cmd += ['--rlimit', str(rlimit)]
     if extra:
@@ -184,7 +184,7 @@ def def_origin(text_lines, origin, name):
     return '?'
 
 
-def analyse(u, meta, vr):
+def analyse(u, meta, vr, partial=False):
     """-> dict(status: pass|fail|undecided, reason, failures: [...], functions: [...], stats)"""
     res = dict(status='pass', reason='', failures=[], functions=[], verified=0, errors=0, smt_ms=0, total_ms=0)
     if vr['timeout']:
@@ -265,7 +265,7 @@ def analyse(u, meta, vr):
     names = set(f['name'] for f in res['functions'])
     missing = [f['path'] for f in meta['functions'] if f['contracted'] and f['path'] not in names and f['name'] not in names
                and not any(n.endswith('::' + f['name']) for n in names)]
-    if missing and res['status'] == 'pass':
+    if missing and res['status'] == 'pass' and not partial:
         return dict(res, status='undecided', reason='functions missing from the verifier output: ' + ', '.join(missing))
     res['rlimit_fns'] = sorted(rlimit_fns)
     return res
